@@ -29,9 +29,11 @@ What is proved, and what is not:
 * **RDF/XML: partial.**  Escaping (`C36_xml_escape_roundtrip`), the predicate split
   (`C36_xml_split_join`, `C36_xml_split_local_ncname`) and the text rule
   (`C36_xml_text_partial`) are proved; the XML grammar / rio_xml's parser is tied only
-  differentially.  Two known findings: white-space-only literals come back empty
+  differentially.  Four known findings: white-space-only literals come back empty
   (`C36_counterexample_xml_whitespace_literal`), blank-node labels that are not NCNames make
-  the output unparseable (`C36_counterexample_xml_bnode_digit`).
+  the output unparseable (`C36_counterexample_xml_bnode_digit`), so do predicates RDF/XML
+  reserves (`C36_counterexample_xml_reserved_predicate`), and predicate `rdf:li` comes back as
+  `rdf:_n` (`C36_counterexample_xml_rdf_li`).
 -/
 namespace SgModel.Rdf
 
@@ -116,17 +118,23 @@ theorem C36_model_refines_spec (ts : List Triple) (h : ∀ t ∈ ts, tripleOK t 
   · simp only [predict, C36_ttl_subset_roundtrip_partial ts h, spec, sameUpToBnodes, setEq_refl,
       Bool.true_or, if_true]
 
-/-- RDF/XML, PARTIAL: outside the two known findings the predicted outcome satisfies S. -/
+/-- RDF/XML, PARTIAL: outside the four known findings (non-NCName blank-node labels, reserved
+predicates, `rdf:li`, white-space-only literals) the predicted outcome satisfies S. -/
 theorem C36_model_refines_spec_xml_partial (ts : List Triple)
     (hb : anyBnodeBad isNcName ts = false)
+    (hp : ts.any (fun t => xmlPredBad t.p) = false)
+    (hli : ∀ t ∈ ts, t.p ≠ rdfLi)
     (hw : ∀ t ∈ ts, ∀ l, t.o = .lit l → litWsOnly l = false) :
     spec .xml ts (predict .xml ts) = .ok := by
   have hmap : ts.map xmlTripleBack = ts := by
     have : ts.map xmlTripleBack = ts.map id :=
       List.map_congr_left (fun t ht => xmlTripleBack_id t (hw t ht))
     simpa using this
-  simp only [predict, hb, hmap, spec, sameUpToBnodes, setEq_refl, Bool.true_or, if_true,
-    Bool.false_eq_true, if_false]
+  have hback : xmlBack ts = ts := by
+    unfold xmlBack
+    rw [xmlBackFrom_map ts hli, hmap]
+  simp only [predict, hb, hp, hback, spec, sameUpToBnodes, setEq_refl, Bool.true_or, if_true,
+    Bool.false_eq_true, if_false, Bool.or_self]
 
 /-! ### the pinned tree violates the property (witnesses replayed by the corpus) -/
 
@@ -156,6 +164,23 @@ theorem C36_counterexample_xml_whitespace_literal :
 theorem C36_counterexample_xml_bnode_digit :
     oxBnodeValid ['0', 'a'] = true ∧ bnodeOK ['0', 'a'] = true ∧ isNcName ['0', 'a'] = false
     ∧ predict .xml [⟨wS, wP, .bnode ['0', 'a']⟩] = .parseErr := by
+  decide
+
+/-- predicate `rdf:li` is written as an `<li>` element and read back as `rdf:_1`. -/
+theorem C36_counterexample_xml_rdf_li :
+    predict .xml [⟨wS, rdfLi, .lit (.simple ['x'])⟩]
+      = .back [⟨wS, rdfNs ++ ['_', '1'], .lit (.simple ['x'])⟩]
+    ∧ spec .xml [⟨wS, rdfLi, .lit (.simple ['x'])⟩] (predict .xml [⟨wS, rdfLi, .lit (.simple ['x'])⟩])
+        = .viol "rdf-li-renumbered" := by
+  decide
+
+/-- a predicate RDF/XML reserves (here `rdf:about`) is written as a property element the
+parser rejects; so is the XML-namespaces IRI `http://www.w3.org/2000/xmlns/`. -/
+theorem C36_counterexample_xml_reserved_predicate :
+    predict .xml [⟨wS, rdfNs ++ ['a','b','o','u','t'], .lit (.simple ['x'])⟩] = .parseErr
+    ∧ spec .xml [⟨wS, rdfNs ++ ['a','b','o','u','t'], .lit (.simple ['x'])⟩] .parseErr
+        = .viol "reserved-predicate"
+    ∧ predict .xml [⟨wS, xmlnsNs, .lit (.simple ['x'])⟩] = .parseErr := by
   decide
 
 /-! ### non-vacuity -/
